@@ -1022,7 +1022,8 @@ func (vc *VC) havocTargets(st *State, ts []modTarget) {
 				key := vc.heapKey(k)
 				h := vc.get(st, key)
 				f := vc.fresh("hv.obj", "(Array Int "+k.Sort()+")")
-				vc.set(st, key, tSto(h, t.ref, f))
+				// (nothing lives at the nil reference)
+				vc.set(st, key, tSto(h, t.ref, tIte(tEq(t.ref, "0"), tSel(h, t.ref), f)))
 			}
 		case "map":
 			ks, _ := vc.keySortOf(t.keyT)
